@@ -133,8 +133,8 @@ SnapOK(e) ==
        c \in Clients /\ copen'[c] =>
          \* same queue: per message done flag, fragments done, and fragment count (the latter only for
          \* forwarded requests; what a locally answered message carries is an implementation detail)
-         /\ Len(inq'[c]) = Len(e.snap.cli[x].msgs)
-         /\ \A j \in DOMAIN inq'[c] :
+         /\ Len(inq'[c]) = e.snap.cli[x].n
+         /\ \A j \in DOMAIN inq'[c] \cap DOMAIN e.snap.cli[x].msgs :
               LET mm == msg'[inq'[c][j]] sm == e.snap.cli[x].msgs[j] IN
               /\ mm.done = sm.done
               /\ mm.frs # {} => (mm.fragDone = sm.fragDone /\ Cardinality(mm.frs) = sm.nfrags)
